@@ -79,7 +79,12 @@ def to_script(ans):
     for a in ans:
         if a[0] == 'a': out.append(('accept', a[1]))
         elif a[0] == 'r': out.append(('ret', a[1]))
-        else: out.append(('raise', Boom('scripted transport failure')))
+        else:
+            # whatever the transport raises (a timed-out send, a reset, a closed descriptor ...) ends the session with an
+            # error; it is never a reason to skip or retry bytes
+            import socket
+            classes = [Boom, socket.timeout, ConnectionResetError, BlockingIOError, ValueError]
+            out.append(('raise', classes[len(out) % len(classes)]('scripted transport failure')))
     return out
 
 def canon_err(e, sess):
